@@ -639,10 +639,9 @@ func (w *c05World) c05SharedCounted(b *c05Block) []string {
 //   - (a) every trashed class-c copy sits on a server where another class-c
 //     mount is in use after the changes (a kept class-c copy or a class-c
 //     pull target) – the "same server twice" situation, and
-//   - (b) the kept class-c replication plus the replication of kept copies
-//     outside c that sit on servers where NO class-c mount is in use (the
-//     stand-ins the distinct-server pass can have counted) reaches
-//     min(desired_c, before_c).
+//   - (b) the kept class-c replication plus the replication of the kept copies
+//     outside c (the stand-ins the distinct-server pass can have protected
+//     instead) reaches min(desired_c, before_c).
 // Everything else – any (i),(ii),(iii),(v),(vi),(vii) failure, a trashed
 // class copy on a server with no other class mount in use, a total that is
 // short even with the stand-ins – is reported as a violation. The finding
@@ -651,26 +650,17 @@ func (w *c05World) c05SharedCounted(b *c05Block) []string {
 // default-class layouts.
 
 // classSrvInUse: servers on which the balancer uses a class-c mount after its
-// changes: a kept class-c copy or a class-c pull target. A device seen through
-// several surviving views is "used" through only one of them (which one is
-// the implementation's choice): with multiView=true all its servers are
-// reported (lenient for condition (a)), with multiView=false none (lenient
-// for the stand-in exclusion). Without shared devices both agree.
-func (w *c05World) classSrvInUse(b *c05Block, out *c05Out, class string, trashed map[string]bool, multiView bool) map[int]bool {
+// changes: a kept class-c copy (through any surviving view of its device) or
+// a class-c pull target.
+func (w *c05World) classSrvInUse(b *c05Block, out *c05Out, class string, trashed map[string]bool) map[int]bool {
 	use := map[int]bool{}
 	for _, dev := range w.devKeys {
 		if _, has := b.Copies[dev]; !has || trashed[dev] || !w.minfo[w.devMounts[dev][0]].classes[class] {
 			continue
 		}
-		var srvs []int
 		for _, gi := range w.devMounts[dev] {
 			if w.survivor[gi] {
-				srvs = append(srvs, w.minfo[gi].srv)
-			}
-		}
-		if len(srvs) == 1 || multiView {
-			for _, si := range srvs {
-				use[si] = true
+				use[w.minfo[gi].srv] = true
 			}
 		}
 	}
@@ -682,20 +672,16 @@ func (w *c05World) classSrvInUse(b *c05Block, out *c05Out, class string, trashed
 	return use
 }
 
-// standInRepl: replication of kept copies outside class c on servers where
-// no class-c mount is in use (each device once).
-func (w *c05World) standInRepl(b *c05Block, out *c05Out, class string, trashed map[string]bool) int {
-	use := w.classSrvInUse(b, out, class, trashed, false)
+// keptOutsideClass: replication of kept copies on devices that do not offer
+// class c (each device once).
+func (w *c05World) keptOutsideClass(b *c05Block, class string, trashed map[string]bool) int {
 	n := 0
 	for _, dev := range w.devKeys {
-		if _, has := b.Copies[dev]; !has || trashed[dev] || w.minfo[w.devMounts[dev][0]].classes[class] {
+		if _, has := b.Copies[dev]; !has || trashed[dev] {
 			continue
 		}
-		for _, gi := range w.devMounts[dev] {
-			if w.survivor[gi] && !use[w.minfo[gi].srv] {
-				n += w.minfo[gi].m.Repl
-				break
-			}
+		if gi := w.devMounts[dev][0]; !w.minfo[gi].classes[class] {
+			n += w.minfo[gi].m.Repl
 		}
 	}
 	return n
@@ -703,7 +689,7 @@ func (w *c05World) standInRepl(b *c05Block, out *c05Out, class string, trashed m
 
 // sameServerClassMountInUse: condition (a).
 func (w *c05World) sameServerClassMountInUse(b *c05Block, out *c05Out, class string, trashed map[string]bool) bool {
-	use := w.classSrvInUse(b, out, class, trashed, true)
+	use := w.classSrvInUse(b, out, class, trashed)
 	any := false
 	for dev := range trashed {
 		ms := w.devMounts[dev]
@@ -741,7 +727,7 @@ func (w *c05World) explainedByStandIn(b *c05Block, out *c05Out, viols []c05Viol,
 		if !w.sameServerClassMountInUse(b, out, c, f.trashedDev) {
 			return false, ""
 		}
-		if f.after[c]+w.standInRepl(b, out, c, f.trashedDev) < need {
+		if f.after[c]+w.keptOutsideClass(b, c, f.trashedDev) < need {
 			return false, ""
 		}
 	}
